@@ -13,10 +13,13 @@ Static corruptions of a FRESH-by-mtime entry:
                  bytes 0..63 and, for every later byte i, the single bit i mod 8.  Each flip runs in a
                  forked child (address space limited, alarm set) with script_cache_check /
                  code_cache_check wrapped by recorders.  A flip after which the check function hands out
-                 a CODE OBJECT is "loaded flipped code: not judged" (undetectable damage; whatever the
-                 child then does, including dying, is only counted).  Otherwise the entry is detectably
-                 damaged: no exception may escape the run (key ...:bit-flip:escaped-<ExcType>), the run
-                 must equal the uncached run, the entry must be valid afterwards and the next run match.
+                 a CODE OBJECT is "loaded flipped code: not judged" (undetectable damage; counted, and the
+                 child stops right there - bytecode with a flipped bit is never executed).  Otherwise the
+                 entry is detectably damaged (unmarshalling raises, or yields something that is not a
+                 code object): no exception may escape the run (key ...:bit-flip:escaped-<ExcType>), the
+                 run must equal the uncached run (a non-code object handed out as "the cached code" is
+                 ...:bit-flip:loaded-non-code-object), the entry must be valid afterwards and the next run
+                 match.  The parent enforces a deadline with SIGKILL on the child's process group.
 Dynamic faults (crashx shims bound into xonsh.codecache in a forked child): the caching run is
 killed before every file operation, torn at write lengths, or gets one failing call; then the NEXT
 run is judged.
